@@ -8,6 +8,7 @@ CONSTANTS
     DefTTLCfg = 0
     W = 2
     MaxT = 2
+    Ticks = {1}
     Mode = "edges"
     Depth = 0
 VIEW ViewGen
